@@ -61,7 +61,9 @@ fn h2_body(hard: bool, iw: u8, cw: u8, ign_ws: usize) {
     let mut cb = any_counters(2, 2);
     let mut b_text = "Cd";
     if ign_ws > 0 {
-        cb.ignored = true;
+        // `ignored` symbolic: a formatted token's original whitespace is discarded, an ignored
+        // token's is re-emitted
+        cb.ignored = kani::any();
         b_text = text_with_ws(ign_ws, &[b' ', b'\n', b'\r', b'\t'], b"Cd");
         kani::assume(b_text.as_bytes()[0] == b'\n' || b_text.as_bytes()[0] == b'\r');
     }
@@ -93,6 +95,7 @@ fn h2_body(hard: bool, iw: u8, cw: u8, ign_ws: usize) {
         assert!(found, "no line break between a line comment and the next token");
     }
     cover!(!cb.ignored && cb.nl == 0, "safety_net_fired");
+    if ign_ws > 0 { cover!(cb.ignored, "ignored_token"); }
 }
 macro_rules! h2 { ($($name: ident => ($h: expr, $iw: expr, $cw: expr, $ig: expr)),*) => {$(
     recon_harness! { fn $name() unwind(12) { h2_body($h, $iw, $cw, $ig) } }
